@@ -64,6 +64,11 @@ def raw_sign(sk, scheme, msg):
     if scheme.startswith("PSS-"):
         h = HASH[scheme[4:]]()
         return sk.sign(msg, padding.PSS(mgf=padding.MGF1(h), salt_length=h.digest_size), h)
+    if scheme.startswith("PSSM-"):
+        # PSS whose mask generation function uses ANOTHER hash than the message digest (and optionally another salt length): a different padding scheme
+        parts = scheme.split("-")
+        h, m = HASH[parts[1]](), HASH[parts[2]]()
+        return sk.sign(msg, padding.PSS(mgf=padding.MGF1(m), salt_length=(int(parts[3]) if len(parts) > 3 else h.digest_size)), h)
     if scheme == "ED25519":
         return sk.sign(msg)
     raise ValueError(scheme)
